@@ -40,7 +40,10 @@ type LcPlan struct {
 	Listeners []LcListener `json:"listeners"`
 	Shutdown  string       `json:"shutdown"` // client-close | server-close | rst | fin
 	ShutUs    int          `json:"shut_us"`
+	Noise     int          `json:"noise,omitempty"` // messages of a background channel that keeps the client's write queue full
 }
+
+const noiseChan = 0x7FFF
 
 type lifecycleScn struct{}
 
@@ -81,6 +84,13 @@ func (lifecycleScn) Generate(g *simrt.Rng, tier string) any {
 	if p.Shutdown != "halfclose-stalled" && g.Bool(0.35) {
 		// the connection outlives its channels: every channel end must reach the handler on its own
 		p.ShutUs = 5_000_000
+		if g.Bool(0.6) {
+			// ... also under back-pressure: a background channel keeps the client's tiny write queue full
+			p.Noise = 10 + g.IntN(50)
+			p.Net.BufCap = simrt.Pick(g, 16, 64)
+			p.Opt.WriteQueue = simrt.Pick(g, 1, 16, 64)
+			p.Opt.Window = 65535
+		}
 	}
 	return p
 }
@@ -255,6 +265,13 @@ func (r *lcRun) handler(ctx mpx.Context, ch mpx.Channel) status.Status {
 		return status.OK
 	}
 	h, ok := parseHeader(first)
+	if ok && h.nonce == r.p.Nonce && h.ch == noiseChan {
+		for {
+			if _, st := ch.Receive(r.bg); !st.OK() {
+				return status.OK
+			}
+		}
+	}
 	if !ok || h.nonce != r.p.Nonce || h.ch >= len(r.cs) {
 		simrt.Fail("C03-corrupt", "handler got a foreign opening payload")
 	}
@@ -380,6 +397,20 @@ func (r *lcRun) main() {
 	for i := range p.Listeners {
 		i := i
 		g.goTask(fmt.Sprintf("lis%d", i), func() { r.listenerTask(i, cli) })
+	}
+	if p.Noise > 0 {
+		g.goTask("noise", func() {
+			ch, st := cli.Channel(r.bg)
+			if !st.OK() {
+				return
+			}
+			defer ch.Free()
+			for k := 0; k < p.Noise; k++ {
+				if st := ch.Send(r.bg, payload(p.Nonce, noiseChan, 0, 0, k, 2000)); !st.OK() {
+					return
+				}
+			}
+		})
 	}
 	g.goTask("shutdown", func() {
 		hSleep(time.Duration(p.ShutUs) * time.Microsecond)
